@@ -66,6 +66,8 @@ type Sim struct {
 	rootSeq int
 	Step    int
 	free    bool // pass-through (teardown, or sequential worlds)
+	root    *Task
+	wake    chan struct{}
 	start   time.Time
 
 	Viol   *Violation
@@ -83,7 +85,7 @@ type Sim struct {
 func NewSim(t *Tape) *Sim {
 	return &Sim{
 		T: t, tasks: map[int64]*Task{}, owners: map[any]*Task{},
-		Faults: map[string]int{}, Probes: map[string]int{},
+		Faults: map[string]int{}, Probes: map[string]int{}, wake: make(chan struct{}, 1),
 		rangeCount: map[string]uint64{}, start: time.Now(),
 	}
 }
@@ -159,7 +161,7 @@ func (s *Sim) register(name string) *Task {
 }
 
 // RegisterRoot names the calling goroutine "root".
-func (s *Sim) RegisterRoot() *Task { return s.register("root") }
+func (s *Sim) RegisterRoot() *Task { s.root = s.register("root"); return s.root }
 
 // Go starts a task and runs it until its first park (or exit).
 func (s *Sim) Go(name string, fn func(t *Task)) {
@@ -197,7 +199,9 @@ func trimStack(b []byte) string {
 func (s *Sim) Park(kind, site string, lock any, info any, done <-chan struct{}) bool {
 	t := s.CurTask()
 	s.mu.Lock()
-	if s.free {
+	if s.free || t == s.root {
+		// the root is the scheduler: it runs only while everything else is
+		// parked and never parks itself (oracle reads take locks directly)
 		s.mu.Unlock()
 		return true
 	}
@@ -205,6 +209,10 @@ func (s *Sim) Park(kind, site string, lock any, info any, done <-chan struct{}) 
 	tk := &Ticket{Task: t, Seq: t.seq, Kind: kind, Site: site, Lock: lock, Info: info, ch: make(chan struct{})}
 	s.tickets = append(s.tickets, tk)
 	s.mu.Unlock()
+	select {
+	case s.wake <- struct{}{}:
+	default:
+	}
 	if done == nil {
 		<-tk.ch
 		return true
@@ -244,7 +252,7 @@ func (s *Sim) Lock(l interface {
 		s.mu.Lock()
 		free := s.free
 		s.mu.Unlock()
-		if free {
+		if free || s.CurTask() == s.root {
 			l.Lock()
 			return
 		}
@@ -350,12 +358,39 @@ func (s *Sim) Release(tk *Ticket) {
 	synctest.Wait()
 }
 
-// Advance moves virtual time by d; timers firing on the way run until parked.
+// Advance moves virtual time by up to d: it returns early, at that virtual
+// instant, as soon as some goroutine files a ticket, so that no task is held
+// back by the scheduler while time passes (timing oracles stay exact).
+// Timers firing on the way run until they park or block.
 func (s *Sim) Advance(d time.Duration) {
 	s.mu.Lock()
 	s.Step++
 	if len(s.Sched) < 400 {
 		s.Sched = append(s.Sched, fmt.Sprintf("%d t=%v advance %v", s.Step, time.Since(s.start), d))
+	}
+	s.mu.Unlock()
+	select {
+	case <-s.wake:
+	default:
+	}
+	if d > 0 {
+		tm := time.NewTimer(d)
+		select {
+		case <-tm.C:
+		case <-s.wake:
+			tm.Stop()
+		}
+	}
+	synctest.Wait()
+}
+
+// Stall lets d of virtual time pass while parked tasks stay parked (a slow
+// or stalled node). Not for scenarios with timing oracles.
+func (s *Sim) Stall(d time.Duration) {
+	s.mu.Lock()
+	s.Step++
+	if len(s.Sched) < 400 {
+		s.Sched = append(s.Sched, fmt.Sprintf("%d t=%v stall %v", s.Step, time.Since(s.start), d))
 	}
 	s.mu.Unlock()
 	time.Sleep(d)
